@@ -373,7 +373,7 @@ def corpus_group(s, n=500):
             comps.append(c)
             texts.append(t)
             if rng.random() < 0.15:
-                texts.insert(rng.randrange(len(texts) + 1), rng.choice(['foo', '1.y', 'bar!']))
+                texts.insert(rng.randrange(len(texts) + 1), rng.choice(['foo', '1.y', 'bar!', '1.2-beta', '2-rc', '1.2.3.4', '>=1.2-0']))
         return comps, rng.choice([' ', ' ', '  ']).join(texts)
     probes = [{'major': a, 'minor': b, 'patch': c, 'pre': pre, 'build': []} for a in (0, 1, 2, 3, 10) for b in (0, 1, 2) for c in (0, 1, 3) for pre in ([], [{'s': 'alpha'}], [{'n': 0}], [{'s': 'beta'}, {'n': 2}], [{'s': 'rc'}])]
     cases, prog = [], []
